@@ -1,7 +1,7 @@
 (* C11 correspondence: what the harness observed of the real stringToIdentifier,
    Generate and GenerateIndex, compared with the model and judged by the
    validators of Spec/SbomSpec.v (run on the OBSERVED documents). *)
-From Apko Require Export Base.Prelude Model.Sbom Spec.SbomSpec.
+From Apko Require Export Base.Prelude Base.C01Lib Model.Sbom Spec.SbomSpec Model.SbomLic Spec.SbomLicSpec Model.SbomProv Spec.SbomProvSpec.
 Open Scope string_scope. Open Scope list_scope.
 
 Definition mkp (i n v : string) (s : list (string * string)) : pkg :=
@@ -10,6 +10,8 @@ Definition mkr (e t r : string) : rel := {| r_elem := e; r_type := t; r_related 
 Definition mkd (ps : list pkg) (rs : list rel) (ds : list string) : doc :=
   {| d_pkgs := ps; d_rels := rs; d_desc := ds |}.
 Definition mka (n v : string) (s : list N) : apk := {| a_name := n; a_version := v; a_sum := s |}.
+Definition mkl (i t : string) : linfo := {| l_id := i; l_text := t |}.
+Definition mki (n v : string) (s : list N) (a : string) : inst := {| i_apk := mka n v s; i_arch := a |}.
 
 Definition pkg_eqb (a b : pkg) : bool :=
   String.eqb (p_id a) (p_id b) && String.eqb (p_name a) (p_name b) &&
@@ -130,15 +132,16 @@ Fixpoint all_perms {A} (l : list A) : list (list A) :=
   end.
 Definition perm_k (k : nat) (l : list string) : list string := nth k (all_perms l) l.
 
-Fixpoint try_perms (g : gen_in) (o : obs) (ks : list nat) (first : list string) : list string :=
+Fixpoint try_perms_m (m : (list string -> list string) -> res doc) (o : obs) (ks : list nat) (first : list string) : list string :=
   match ks with
   | [] => first
   | k :: t =>
-      match diff_res "generate" (generate (perm_k k) g) o with
+      match diff_res "generate" (m (perm_k k)) o with
       | [] => []
-      | tg => try_perms g o t (match first with [] => tg | _ => first end)
+      | tg => try_perms_m m o t (match first with [] => tg | _ => first end)
       end
   end.
+Definition try_perms (g : gen_in) := try_perms_m (fun p => generate p g).
 
 Definition check_gen (c : gen_case) : list string :=
   let g := gc_in c in
@@ -172,26 +175,81 @@ Definition check_index (c : idx_case) : list string :=
   | OPanic => ["viol:generate-index-panics"]
   end.
 
-(* ---- end to end: the SBOMs of a real `apko build` against the inputs recomputed from the
-        emitted artifacts (layout blobs, flattened layers) ---------------------------------------- *)
-Inductive e2e_case := EImg (c : gen_case) | EIdx (c : idx_case).
+(* ---- end to end: the SBOMs of a real `apko build` against what was built, read back from
+        the emitted artifacts (layout blobs, flattened layers).  The MODEL side goes through
+        Model/SbomProv.v (what pkg/build/sbom.go hands to the generator, as goextract reads
+        it); the VALIDATORS use Spec/SbomProvSpec.v's expected_input, written down directly. *)
+Inductive e2e_case := EImg (b : built) (o : obs) | EIdx (bi : built_index) (o : obs).
 Definition check_e2e (c : e2e_case) : list string :=
   match c with
-  | EImg g =>
-      (* an emitted image always has a digest and at least one layer *)
-      tag_if (String.eqb (g_image (gc_in g)) "") "viol:e2e-no-image-digest" ++
-      (match gc_obs g with ODoc _ => [] | _ => ["viol:e2e-image-sbom-missing"] end) ++ check_gen g
-  | EIdx x =>
-      (match xc_obs x with
+  | EImg b o =>
+      let g := expected_input b in
+      (match o with ODoc _ => [] | _ => ["viol:e2e-image-sbom-missing"] end) ++
+      try_perms_m (fun p => image_sbom p b) o [0; 1; 2; 3; 4; 5] [] ++
+      match o with
+      | ODoc d => validate_gen g d
+      | OErr => []
+      | OPanic => match g_layers g with [] => [] | _ => ["viol:generate-panics"] end
+      end
+  | EIdx bi o =>
+      let x := expected_index_input bi in
+      (match o with
        | ODoc d =>
            (* the image elements (targets of VARIANT_OF), in document order, are exactly the
               recomputed manifest digests in the order of their architecture strings *)
            let variants := filter (fun p => existsb (fun r => String.eqb (r_related r) (p_id p) && String.eqb (r_type r) "VARIANT_OF") (d_rels d)) (d_pkgs d) in
-           tag_if (negb (list_eqb String.eqb (List.map p_name variants) (List.map (fun h => "sha256:" +++ snd h) (x_images (xc_in x)))))
+           tag_if (negb (list_eqb String.eqb (List.map p_name variants) (List.map (fun h => "sha256:" +++ snd h) (x_images x))))
                   "viol:e2e-index-images-not-the-built-ones-in-architecture-order"
        | _ => ["viol:e2e-index-sbom-missing"]
-       end) ++ check_index x
+       end) ++
+      diff_res "generate-index" (index_sbom (fun l => l) bi) o ++
+      match o with
+      | ODoc d => validate_index x d
+      | OErr => []
+      | OPanic => ["viol:generate-index-panics"]
+      end
   end.
+
+(* ---- licensing infos ------------------------------------------------------------------------- *)
+(* unit: mergeLicensingInfos(source, target); the observation is the target afterwards, None = error *)
+Record mlic_case := { ml_src : list linfo; ml_tgt : list linfo; ml_obs : option (list linfo) }.
+Definition check_mlic (c : mlic_case) : list string :=
+  match merge_licensing (ml_src c) (ml_tgt c), ml_obs c with
+  | Ok m, Some o => tag_if (negb (list_eqb linfo_eqb m o)) "mismatch:merge-licensing-infos"
+  | Err, None => []
+  | _, _ => ["mismatch:merge-licensing-outcome"]
+  end ++
+  match ml_obs c with
+  | Some o => tag_if (negb (lic_union_b (ml_src c) (ml_tgt c) o)) "viol:licensing-merge-not-the-union"
+  | None => tag_if (consistent_b (ml_tgt c ++ ml_src c)) "viol:licensing-merge-fails-on-consistent-infos"
+  end.
+
+(* Generate on embedded documents that carry hasExtractedLicensingInfos (single-target documents:
+   the map order plays no part) *)
+Record lic_case := { lc_in : gen_in; lc_lfs : list (string * list linfo); lc_obs : obs; lc_lics : list linfo }.
+Definition check_lic (c : lic_case) : list string :=
+  let g := lc_in c in
+  let used := used_lists (g_fs g) (lc_lfs c) (g_apks g) in
+  match generate_full (fun l => l) g (lc_lfs c), lc_obs c with
+  | Ok (d, l), ODoc od => diff_doc "generate" d od ++ tag_if (negb (list_eqb linfo_eqb l (lc_lics c))) "mismatch:generate-licensing-infos"
+  | Err, OErr | Panic, OPanic => []
+  | OutOfFuel, _ => ["mismatch:generate-model-out-of-fuel"]
+  | _, _ => ["mismatch:generate-outcome"]
+  end ++
+  match lc_obs c with
+  | ODoc od =>
+      validate_gen g od ++
+      tag_if (negb (nodup_b (lic_ids (lc_lics c)))) "viol:licensing-dup-id" ++
+      tag_if (negb (forallb (fun l => forallb (fun i => lmem i (lc_lics c)) l) used)) "viol:licensing-info-lost" ++
+      tag_if (negb (forallb (fun i => existsb (fun l => lmem i l) used) (lc_lics c))) "viol:licensing-info-from-nowhere"
+  | OErr => []
+  | OPanic => match g_layers g with [] => [] | _ => ["viol:generate-panics"] end
+  end.
+
+(* one stage, one Cases file for both kinds *)
+Inductive licx_case := LMerge (c : mlic_case) | LGen (c : lic_case).
+Definition check_licx (c : licx_case) : list string :=
+  match c with LMerge m => check_mlic m | LGen g => check_lic g end.
 
 (* ---- units: replacePackage / copySBOMElements on arbitrary documents ----------- *)
 Record repl_case := { rc_doc : doc; rc_old : string; rc_new : string; rc_obs : doc }.
